@@ -429,6 +429,28 @@ def _bounded_case(seed: int) -> Dict[str, Any]:
     both_p = lambda r: p1(r) and p2(r) and dev(r)
     for label, order in (("Composite.123", [f1, f2, f3]), ("Composite.312", [f3, f1, f2]), ("Composite.twice", [f2, f1, f2, f3, f1])):
         check(label, tf.CompositeFilter(order), enc, st, both_p, dec)
+    # composite = its members applied in the GIVEN order, also when a member's selection depends on the rows it receives
+    # (position among the iterations present): compared with the real members applied one after the other
+    import functools
+
+    crafted = pd.DataFrame({"index": list(range(8)), "iteration": [550, 551, 551, 552, 550, 551, 552, 552], "rank": [0, 0, 1, 1, 0, 0, 1, 1],
+                            "ts": [10 * i for i in range(8)], "dur": [5] * 8, "stream": [-1, 7, -1, 7, -1, -1, 7, -1], "correlation": [-1, 3, -1, 4, -1, -1, 5, -1],
+                            "name": [0] * 8, "cat": [0] * 8}).set_index("index", drop=False)
+    crafted.index.name = None
+    for frame_label, frame in (("generated", enc), ("two_ranks_shifted_iterations", crafted)):
+        for label, members in (("first_iteration_then_rank", [tf.FirstIterationFilter(), tf.RankFilter(1)]), ("rank_then_first_iteration", [tf.RankFilter(1), tf.FirstIterationFilter()]),
+                               ("iteration_index_then_iteration", [tf.IterationIndexFilter([0, 1]), tf.IterationFilter([551, 4, 7])]),
+                               ("iteration_index_then_time_then_rank", [tf.IterationIndexFilter(1), tf.TimeRangeFilter((0, 10_000_000)), tf.RankFilter([0, 1])])):
+            clauses["Composite.sequential"] = clauses.get("Composite.sequential", 0) + 1
+            try:
+                want = functools.reduce(lambda d_, f_: f_(d_), members, frame.copy(deep=True))
+                got = tf.CompositeFilter(members)(frame.copy(deep=True))
+            except Exception as e:  # noqa: BLE001
+                fails.append({"what": "Composite.sequential.noraise", "input": {"seed": seed, "frame": frame_label, "members": label}, "observed": f"{type(e).__name__}: {e}"})
+                continue
+            if list(got.index) != list(want.index) or (len(got.columns) and len(want.columns) and not got.equals(want)):
+                fails.append({"what": "Composite.equals_members_in_sequence", "input": {"seed": seed, "frame": frame_label, "members": label, "rows": frame.to_dict("records")},
+                              "observed": {"kept_labels": list(got.index)}, "expected": {"kept_labels": list(want.index)}})
     # constructors
     clauses["constructors"] = clauses.get("constructors", 0) + 1
     for bad, exc in ((lambda: tf.TimeRangeFilter((5, 1)), ValueError), (lambda: tf.TimeRangeFilter([1, 5]), ValueError),
